@@ -635,9 +635,11 @@ def stmt_vars(k):
     elif k[0] == "yield":
         u |= lang.expr_vars(k[3]) | lang.expr_vars(k[4])
     elif k[0] == "implicit":
-        u |= set(k[1]) | set(k[2])
+        # the unknowns are names bound inside the solve, not variables of the program (unless the guess or an
+        # assignee mentions a variable of the same name)
+        u |= set(k[1])
         for e in k[3]:
-            u |= lang.expr_vars(e)
+            u |= lang.expr_vars(e) - set(k[2])
         for _, e in k[4]:
             u |= lang.expr_vars(e)
     return u
